@@ -6,7 +6,7 @@ open FinVerif.Model.C19
 
 instance : NatCast Float := ⟨Float.ofNat⟩
 
-def opsF : Ops Float := ⟨Float.exp, Float.log, Float.sqrt, fmax, 2.0, 4.0, 0.5, 0.25, 1e-8, 99999.0, Float.abs, 1e-12⟩
+def opsF : Ops Float := ⟨Float.exp, Float.log, Float.sqrt, fmax, 2.0, 4.0, 0.5, 0.25, 1e-8, 99999.0, Float.abs, 1e-12, fmin⟩
 
 /-- split `xs` into consecutive blocks of length `n` (as many as fit) -/
 def chunks (n : Nat) (xs : List Float) : List (List Float) :=
